@@ -17,10 +17,16 @@ def rsize(lb, lr):
 
 
 def build_rows(dumps, placements, core, reserved_by_placement=None):
-    """dumps: {fs: [plan dump dict]}; placements: list of {"global":[...],"local":[...]}; core: list."""
-    core_end = max(s["offset"] + rsize(s["log_bits"], s["log_region"]) for s in core if not s["global"])
-    rows, configs = {}, []
+    """dumps: {fs: [plan dump dict]}; placements / core / reserved_by_placement: either one value for all feature
+    sets or a dict {fs: value} (the VM placements, the core chain and the reserved size are constants of the LINKED crate:
+    `immix_smaller_block` etc. shift the whole local chain, so they must come from the same binary as the dump)."""
+    def per(x, fs):
+        return x[fs] if isinstance(x, dict) and fs in x else x
+    rows, configs, core_end_max = {}, [], 0
     for fs, plans in dumps.items():
+        core_fs, placements_fs, reserved_fs = per(core, fs), per(placements, fs), per(reserved_by_placement, fs)
+        core_end = max(s["offset"] + rsize(s["log_bits"], s["log_region"]) for s in core_fs if not s["global"])
+        core_end_max = max(core_end_max, core_end)
         for d in plans:
             used = {}
             for sp in d["spaces"]:
@@ -29,19 +35,19 @@ def build_rows(dumps, placements, core, reserved_by_placement=None):
             core_used = [s for n, s in used.items() if not n.startswith(VM_PREFIX)]
             vm_used = {n for n in used if n.startswith(VM_PREFIX)}
             gran = d["granularity"]
-            for pi, p in enumerate(placements):
+            for pi, p in enumerate(placements_fs):
                 vm_all = p["global"] + p["local"]
                 vm_end = max([s["offset"] + rsize(s["log_bits"], s["log_region"]) for s in vm_all] + [0])
                 # the reserved size the REAL start-up code computes for this placement (hx_consts vmreserved);
                 # the closed formula is only the fallback
-                reserved = (reserved_by_placement or {}).get(pi, align_up(max(core_end, vm_end), gran))
+                reserved = (reserved_fs or {}).get(pi, align_up(max(core_end, vm_end), gran))
                 # which VM spec kinds does the plan use? (names are the spec type names)
                 active_vm = [s for s in vm_all if s["name"] in vm_used or s["name"] == "VMGlobalLogBitSpec" and "VMGlobalLogBitSpec" in vm_used]
                 specs = sorted(core_used + active_vm, key=lambda s: (s["offset"], s["name"]))
                 key = (reserved, tuple((s["name"], s["global"], s["offset"], s["log_bits"], s["log_region"]) for s in specs))
                 rows.setdefault(key, []).append((fs, d["plan"], pi))
                 configs.append((fs, d["plan"], pi))
-    return rows, configs, core_end
+    return rows, configs, core_end_max
 
 
 def find_violations(rows):
